@@ -300,6 +300,13 @@ func c01TrivialTrees() {
 		mid := f[len(f)/2][0]
 		pairs = append(pairs, [2]string{lo, hi}, [2]string{hi, lo}, [2]string{lo, mid}, [2]string{mid, hi})
 	}
+	for _, f := range tblRanges { // ids that look like members of the family without being in it, against members
+		intr := familyIntruders(f[0][0])
+		for j := 0; j < 3 && len(intr) > 0; j++ {
+			g := f[rng.Intn(len(f))]
+			pairs = append(pairs, [2]string{pick(intr), g[rng.Intn(len(g))]}, [2]string{g[0], pick(intr)})
+		}
+	}
 	for _, d := range tblDeprecated {
 		d = strings.TrimSuffix(d, "+")
 		fam := sameFamilyIDs(d)
